@@ -8,15 +8,15 @@
       {if e}…{elseif e}…{else}…{/if}      {foreach $x in e}…{ifempty}…{/foreach}
       {let $x: e /}                        {let $x}…{/let}
       {switch e}{case e}…{default}…{/switch}   (no text between `{switch}` and the first case)
-      {call .t}{param k: e /}…{/call}          {call .t /}          (no text between the params)
+      {call .t}{param k: e /}…{/call}     {call .t /}     {call .t data="all" /}     (no text between the params)
 
   (`e` a variable `$id` or an integer literal).  For every well-formed tree (`Blk`),
   `block_source_spec`:  `lexAll (srcOf b) false = .items (itemsOf b)` and
   `parseSource pf (srcOf b) = .ok (nodesOf b)` — the AST with every position the real parser assigns.
 
   Layers:
-  * lexer — tags as lists of elements (`Elem`: keyword / identifier, `$id`, `.id`, `:`, integer, one
-    space), every element evaluated exactly through the state functions; a source is a list of
+  * lexer — tags as lists of elements (`Elem`: keyword / identifier, `$id`, `.id`, `:`, `=`, integer,
+    double-quoted string, one space), every element evaluated exactly through the state functions; a source is a list of
     segments (text run, tag) (`lex_segs`);
   * trees — `Cmd` / `Blk` / `IfTail`, flattened into segments (`segsCmd`, `initBlk`);
   * parser — `itemList` until an end-token set and every command's parse function on the stream
@@ -31,8 +31,8 @@ open Lex
 
 /-! ## lexer: the elements of a tag -/
 
-/-- a byte that ends an identifier / number inside a tag: space, `}`, `:` -/
-def delimByte (d : Nat) : Prop := d = 32 ∨ d = 125 ∨ d = 58
+/-- a byte that ends an identifier / number inside a tag: space, `}`, `:`, `=` -/
+def delimByte (d : Nat) : Prop := d = 32 ∨ d = 125 ∨ d = 58 ∨ d = 61
 
 instance (d : Nat) : Decidable (delimByte d) := by unfold delimByte; infer_instance
 
@@ -363,7 +363,7 @@ theorem indexRune_dec_digit {c : Nat} (h : digitByte c) : indexRune Lex.decDigit
 theorem indexRune_delim {d : Nat} (h : delimByte d) (valid : List Int)
     (hv : valid = Lex.decDigits ∨ valid = [43, 45] ∨ valid = [46] ∨ valid = [101]) : indexRune valid (d : Int) = false := by
   unfold delimByte at h
-  rcases h with rfl | rfl | rfl <;> rcases hv with rfl | rfl | rfl | rfl <;> decide
+  rcases h with rfl | rfl | rfl | rfl <;> rcases hv with rfl | rfl | rfl | rfl <;> decide
 
 theorem accept_no {l l' : Lexer} {c : Int} {valid : List Int} (hn : l.next = some (c, l')) (hi : indexRune valid c = false) :
     accept l valid = some (false, l'.backup) := by
@@ -514,6 +514,107 @@ theorem lexInsideTag_digit (inp : Array UInt8) (q : Nat) (s w : Int) (dd : Bool)
   simp only [pure, backup_mk]
 
 
+
+/-! ### `=` and double-quoted strings (attribute values) -/
+
+/-- `=` that is not followed by a second `=` -/
+theorem lexInsideTag_eq (inp : Array UInt8) (q : Nat) (w : Int) (dd : Bool) (ts : Int) (le : Item)
+    (its : Array Item) (hq : q + 1 < inp.size) (hb : byteAt inp q = 61) (hc : byteAt inp (q + 1) < 128)
+    (hne : byteAt inp (q + 1) ≠ 61) :
+    lexInsideTag (Lexer.mk inp q q w dd ts le its) =
+      some (some .insideTag, Lexer.mk inp ((q + 1 : Nat) : Int) ((q + 1 : Nat) : Int) 1 dd ts
+        ⟨.tEquals, q + 1, (inp.extract q (q + 1)).toList⟩ (its.push ⟨.tEquals, q + 1, (inp.extract q (q + 1)).toList⟩)) := by
+  unfold lexInsideTag
+  simp only [bind, Option.bind]
+  rw [next_mk inp q q w dd ts le its 61 (by omega) hb (by omega)]
+  simp only [Int.cast_ofNat_Int, show isSpaceEOL (61 : Int) = false by decide, Bool.false_eq_true, if_false,
+    show ¬ ((61 : Int) = 47) by decide]
+  unfold lexInsideTagMid Lexer.peek
+  rw [if_neg (by decide), if_neg (by decide), if_neg (by decide), if_neg (by decide), if_neg (by decide), if_neg (by decide),
+    if_neg (by decide), if_neg (by decide), if_neg (by decide), if_pos rfl]
+  simp only [bind, Option.bind]
+  rw [next_mk inp (q + 1) q 1 dd ts le its (byteAt inp (q + 1)) (by omega) rfl hc]
+  simp only [pure, backup_mk]
+  rw [if_neg (by omega)]
+  unfold lexInsideTagRest
+  rw [if_neg (by decide), if_pos rfl]
+  unfold emitInside
+  simp only [bind, Option.bind]
+  rw [emit_mk inp q (q + 1) 1 dd ts le its .tEquals (by omega) (by omega)]
+  rfl
+
+/-- `lexInsideTag` at a double quote: the string scanner takes over -/
+theorem lexInsideTag_quote (inp : Array UInt8) (q : Nat) (s w : Int) (dd : Bool) (ts : Int) (le : Item)
+    (its : Array Item) (hq : q < inp.size) (hb : byteAt inp q = 34) :
+    lexInsideTag (Lexer.mk inp q s w dd ts le its) =
+      some (some (.str 34), Lexer.mk inp ((q + 1 : Nat) : Int) s 1 dd ts le its) := by
+  unfold lexInsideTag
+  simp only [bind, Option.bind]
+  rw [next_mk inp q s w dd ts le its 34 hq hb (by omega)]
+  simp only [Int.cast_ofNat_Int, show isSpaceEOL (34 : Int) = false by decide, Bool.false_eq_true, if_false,
+    show ¬ ((34 : Int) = 47) by decide]
+  unfold lexInsideTagMid
+  rw [if_neg (by decide), if_neg (by decide), if_neg (by decide), if_neg (by decide), if_neg (by decide), if_neg (by decide),
+    if_neg (by decide), if_neg (by decide), if_neg (by decide), if_neg (by decide)]
+  unfold lexInsideTagRest
+  rw [if_pos (Or.inl rfl)]
+  rfl
+
+theorem lexString_some {l l1 : Lexer} {r : Int} {quote : Int} (hn : l.next = some (r, l1)) :
+    lexString quote l =
+      if r = eof then Lex.errorfAt l1 l1.start clsString
+      else if r = 92 then
+        match l1.next with
+        | none => none
+        | some (_, l2) => lexString quote l2
+      else if r = quote then
+        match l1.emit .tString with
+        | none => none
+        | some l2 => some (some .insideTag, l2)
+      else lexString quote l1 := by
+  rw [lexString]
+  split
+  · rename_i h; rw [hn] at h; exact absurd h (by simp)
+  · rename_i r' l1' h
+    rw [hn] at h
+    simp only [Option.some.injEq, Prod.mk.injEq] at h
+    obtain ⟨rfl, rfl⟩ := h
+    split
+    · rfl
+    · split
+      · split
+        · rename_i h2; simp only [h2]
+        · rename_i r2 l2 h2; simp only [h2]
+      · rfl
+
+/-- the scan of a string body: `k` plain bytes, then the closing `"`; the token began at `a` -/
+theorem lexString_body (inp : Array UInt8) (a : Nat) (dd : Bool) (ts : Int) (le : Item) (its : Array Item) :
+    ∀ (k q : Nat) (w : Int), q + k < inp.size → a ≤ q →
+    (∀ i, i < k → byteAt inp (q + i) < 128 ∧ byteAt inp (q + i) ≠ 34 ∧ byteAt inp (q + i) ≠ 92) → byteAt inp (q + k) = 34 →
+    lexString 34 (Lexer.mk inp q a w dd ts le its) =
+      some (some .insideTag, Lexer.mk inp ((q + k + 1 : Nat) : Int) ((q + k + 1 : Nat) : Int) 1 dd ts
+        ⟨.tString, q + k + 1, (inp.extract a (q + k + 1)).toList⟩
+        (its.push ⟨.tString, q + k + 1, (inp.extract a (q + k + 1)).toList⟩)) := by
+  intro k
+  induction k with
+  | zero =>
+    intro q w hq ha _ h1
+    rw [lexString_some (next_mk inp q a w dd ts le its 34 (by omega) h1 (by omega))]
+    simp only [Int.cast_ofNat_Int, eof, show ¬ ((34 : Int) = -1) by decide, show ¬ ((34 : Int) = 92) by decide, if_false,
+      if_true]
+    rw [emit_mk inp a (q + 1) 1 dd ts le its .tString (by omega) (by omega)]
+  | succ k ih =>
+    intro q w hq ha hb h1
+    obtain ⟨hc, h34, h92⟩ := hb 0 (by omega)
+    simp only [Nat.add_zero] at hc h34 h92
+    rw [lexString_some (next_mk inp q a w dd ts le its (byteAt inp q) (by omega) rfl hc)]
+    rw [if_neg (by simp only [eof]; omega), if_neg (by omega), if_neg (by omega)]
+    rw [ih (q + 1) 1 (by omega) (by omega) (fun i hi => by
+      have := hb (i + 1) (by omega)
+      rw [show q + 1 + i = q + (i + 1) by omega]; exact this)
+      (by rw [show q + 1 + k = q + (k + 1) by omega]; exact h1)]
+    rw [show q + 1 + k + 1 = q + (k + 1) + 1 by omega]
+
 /-! ## tags as lists of elements -/
 
 /-- what stands between `{` and the closing `}` / `/}` of a tag -/
@@ -530,6 +631,10 @@ inductive Elem where
   | colon
   /-- a decimal integer literal -/
   | int (ds : Bytes)
+  /-- `=` (between an attribute name and its value) -/
+  | eq
+  /-- a double-quoted string without escapes: `"body"` -/
+  | str (body : Bytes)
   deriving Repr, DecidableEq
 
 def Elem.src : Elem → Bytes
@@ -539,6 +644,8 @@ def Elem.src : Elem → Bytes
   | .dotIdent id => 46 :: id
   | .colon => [58]
   | .int ds => ds
+  | .eq => [61]
+  | .str body => 34 :: (body ++ [34])
 
 /-- the item an element that begins at `q` yields (none for a space) -/
 def Elem.items (q : Nat) : Elem → List Item
@@ -548,11 +655,14 @@ def Elem.items (q : Nat) : Elem → List Item
   | .dotIdent id => [⟨.tDotIdent, q + 1 + id.length, 46 :: id⟩]
   | .colon => [⟨.tColon, q + 1, [58]⟩]
   | .int ds => [⟨.tInteger, q + ds.length, ds⟩]
+  | .eq => [⟨.tEquals, q + 1, [61]⟩]
+  | .str body => [⟨.tString, q + 2 + body.length, 34 :: (body ++ [34])⟩]
 
 /-- state functions the lexer runs for the element -/
 def Elem.steps : Elem → Nat
   | .sp => 1
   | .colon => 1
+  | .eq => 1
   | _ => 2
 
 def Elem.ok : Elem → Prop
@@ -562,14 +672,21 @@ def Elem.ok : Elem → Prop
   | .dotIdent id => idOK id
   | .colon => True
   | .int ds => intOK ds
+  | .eq => True
+  | .str body => ∀ i, i < body.length → (body.getD i 0).toNat < 128 ∧ (body.getD i 0).toNat ≠ 34 ∧ (body.getD i 0).toNat ≠ 92
 
 instance (e : Elem) : Decidable e.ok := by cases e <;> (unfold Elem.ok; infer_instance)
 
-/-- identifiers and numbers end at a delimiter -/
-def Elem.needsDelim : Elem → Bool
-  | .sp => false
-  | .colon => false
-  | _ => true
+/-- what must follow: identifiers and numbers end at a delimiter; `=` is not followed by `=` -/
+def Elem.nextOK (e : Elem) (d : UInt8) : Prop :=
+  match e with
+  | .sp => True
+  | .colon => True
+  | .str _ => True
+  | .eq => d.toNat < 128 ∧ d.toNat ≠ 61
+  | _ => delimByte d.toNat
+
+instance (e : Elem) (d : UInt8) : Decidable (e.nextOK d) := by cases e <;> (unfold Elem.nextOK; infer_instance)
 
 /-- first byte of the element -/
 def Elem.head : Elem → UInt8
@@ -579,6 +696,8 @@ def Elem.head : Elem → UInt8
   | .dotIdent _ => 46
   | .colon => 58
   | .int ds => ds.getD 0 0
+  | .eq => 61
+  | .str _ => 34
 
 theorem Elem.src_head (e : Elem) (h : e.ok) : ∃ tl, e.src = e.head :: tl := by
   cases e with
@@ -594,13 +713,15 @@ theorem Elem.src_head (e : Elem) (h : e.ok) : ∃ tl, e.src = e.head :: tl := by
     cases ds with
     | nil => exact absurd h.1 (by simp)
     | cons c r => exact ⟨r, rfl⟩
+  | eq => exact ⟨[], rfl⟩
+  | str body => exact ⟨body ++ [34], rfl⟩
 
 theorem toUInt8_toNat (b : UInt8) : b.toNat.toUInt8 = b := by
   cases b; simp [Nat.toUInt8, UInt8.ofNat, UInt8.toNat]
 
 /-- one element: from `lexInsideTag` at its first byte to `lexInsideTag` behind it -/
 theorem elem_run (e : Elem) {inp : Array UInt8} {q : Nat} {d : UInt8} (hok : e.ok)
-    (hd : e.needsDelim = true → delimByte d.toNat) (h : Holds inp q (e.src ++ [d])) (f : Nat) (w : Int) (ts : Int)
+    (hd : e.nextOK d) (h : Holds inp q (e.src ++ [d])) (f : Nat) (w : Int) (ts : Int)
     (le : Item) (its : Array Item) :
     ∃ (w' : Int) (le' : Item) (its' : Array Item),
       run (f + e.steps) .insideTag (Lexer.mk inp q q w false ts le its) =
@@ -630,7 +751,7 @@ theorem elem_run (e : Elem) {inp : Array UInt8} {q : Nat} {d : UInt8} (hok : e.o
     refine ⟨1, ⟨wordType wd, q + wd.length, wd⟩, its.push ⟨wordType wd, q + wd.length, wd⟩, ?_, ?_⟩
     · show run (f + 1 + 1) _ _ = _
       rw [run_succ (f := f + 1) (show step .insideTag _ = _ from lexInsideTag_letter inp q _ w false ts le its h0.1 hst)]
-      exact run_succ (f := f) (show step .ident _ = _ from lexIdent_word inp q wd d.toNat 1 false ts le its hok (hd rfl) h' hd8)
+      exact run_succ (f := f) (show step .ident _ = _ from lexIdent_word inp q wd d.toNat 1 false ts le its hok hd h' hd8)
     · simp [Elem.items]
   | dollar id =>
     have h' : Holds inp q (36 :: id ++ [d.toNat.toUInt8]) := by rw [toUInt8_toNat]; exact h
@@ -639,7 +760,7 @@ theorem elem_run (e : Elem) {inp : Array UInt8} {q : Nat} {d : UInt8} (hok : e.o
     · show run (f + 1 + 1) _ _ = _
       rw [run_succ (f := f + 1) (show step .insideTag _ = _ from
         lexInsideTag_sigil inp q 36 _ w false ts le its h0.1 h0.2.1 (Or.inl rfl))]
-      have := lexIdent_dollar' inp q id d.toNat 1 false ts le its hok (hd rfl) h' hd8
+      have := lexIdent_dollar' inp q id d.toNat 1 false ts le its hok hd h' hd8
       rw [run_succ (f := f) (show step .ident _ = _ from this)]
       simp only [Elem.src, List.length_cons]
       rw [show q + 1 + id.length = q + (id.length + 1) by omega]
@@ -651,7 +772,7 @@ theorem elem_run (e : Elem) {inp : Array UInt8} {q : Nat} {d : UInt8} (hok : e.o
     · show run (f + 1 + 1) _ _ = _
       rw [run_succ (f := f + 1) (show step .insideTag _ = _ from
         lexInsideTag_sigil inp q 46 _ w false ts le its h0.1 h0.2.1 (Or.inr rfl))]
-      have := lexIdent_dot inp q id d.toNat 1 false ts le its hok (hd rfl) h' hd8
+      have := lexIdent_dot inp q id d.toNat 1 false ts le its hok hd h' hd8
       rw [run_succ (f := f) (show step .ident _ = _ from this)]
       simp only [Elem.src, List.length_cons]
       rw [show q + 1 + id.length = q + (id.length + 1) by omega]
@@ -664,7 +785,36 @@ theorem elem_run (e : Elem) {inp : Array UInt8} {q : Nat} {d : UInt8} (hok : e.o
     refine ⟨1, ⟨.tInteger, q + ds.length, ds⟩, its.push ⟨.tInteger, q + ds.length, ds⟩, ?_, ?_⟩
     · show run (f + 1 + 1) _ _ = _
       rw [run_succ (f := f + 1) (show step .insideTag _ = _ from lexInsideTag_digit inp q _ w false ts le its h0.1 hst)]
-      exact run_succ (f := f) (show step .number _ = _ from lexNumber_int inp q ds d.toNat 1 false ts le its hok (hd rfl) h' hd8)
+      exact run_succ (f := f) (show step .number _ = _ from lexNumber_int inp q ds d.toNat 1 false ts le its hok hd h' hd8)
+    · simp [Elem.items]
+  | eq =>
+    obtain ⟨hq0, hb0, h1⟩ := h.cons
+    obtain ⟨hq1, hb1, _⟩ := h1.cons
+    have hex := (h.append.1).extract
+    refine ⟨1, ⟨.tEquals, q + 1, (inp.extract q (q + 1)).toList⟩, its.push ⟨.tEquals, q + 1, (inp.extract q (q + 1)).toList⟩, ?_, ?_⟩
+    · exact run_succ (f := f) (show step .insideTag _ = _ from
+        lexInsideTag_eq inp q w false ts le its (by omega) hb0 (by rw [hb1]; exact hd.1) (by rw [hb1]; exact hd.2))
+    · simp only [Elem.src, List.length_cons, List.length_nil, Nat.zero_add] at hex
+      simp only [Array.toList_push, Elem.items, hex]
+  | str body =>
+    have hfull := h.append.1
+    obtain ⟨hq0, hb0, h1⟩ := h.cons
+    have h1' : Holds inp (q + 1) (body ++ (34 :: [d])) := by simpa [List.append_assoc] using h1
+    obtain ⟨hbd, hcl⟩ := h1'.append
+    obtain ⟨hq2, hb2, _⟩ := hcl.cons
+    have hex := hfull.extract
+    simp only [Elem.src, List.length_cons, List.length_append, List.length_nil] at hex
+    rw [show q + (body.length + (0 + 1) + 1) = q + 1 + body.length + 1 by omega] at hex
+    refine ⟨1, ⟨.tString, q + 2 + body.length, 34 :: (body ++ [34])⟩,
+      its.push ⟨.tString, q + 2 + body.length, 34 :: (body ++ [34])⟩, ?_, ?_⟩
+    · show run (f + 1 + 1) _ _ = _
+      rw [run_succ (f := f + 1) (show step .insideTag _ = _ from lexInsideTag_quote inp q _ w false ts le its hq0 hb0)]
+      have := lexString_body inp q false ts le its body.length (q + 1) 1 (by omega) (by omega)
+        (fun i hi => by rw [(hbd i hi).2]; exact hok i hi) hb2
+      rw [run_succ (f := f) (show step (.str 34) _ = _ from this), hex]
+      simp only [Elem.src, List.length_cons, List.length_append, List.length_nil]
+      rw [show q + 1 + body.length + 1 = q + (body.length + (0 + 1) + 1) by omega,
+        show q + 2 + body.length = q + (body.length + (0 + 1) + 1) by omega]
     · simp [Elem.items]
 
 
@@ -688,7 +838,7 @@ def headEs : List Elem → UInt8 → UInt8
 /-- every element is well-formed and those that need it are followed by a delimiter -/
 def EsOK : List Elem → UInt8 → Prop
   | [], _ => True
-  | e :: r, nb => e.ok ∧ (e.needsDelim = true → delimByte (headEs r nb).toNat) ∧ EsOK r nb
+  | e :: r, nb => e.ok ∧ e.nextOK (headEs r nb) ∧ EsOK r nb
 
 instance : (es : List Elem) → (nb : UInt8) → Decidable (EsOK es nb)
   | [], _ => isTrue trivial
@@ -922,6 +1072,8 @@ theorem tag_run' (g : Tag) {inp : Array UInt8} {q : Nat} (hok : g.ok) (h : Holds
         have := hk.2.2.1 0 hk.1
         unfold digitByte at this
         simp only [Elem.head]; omega
+      | eq => decide
+      | str _ => simp only [Elem.head]; decide
     cases sc with
     | false =>
       have h1' : Holds inp (q + 1) (srcEs (e0 :: r0) ++ [125]) := h1
@@ -1150,6 +1302,8 @@ mutual
     | call (name : Bytes) (ps : List (Bytes × SExp))
     /-- `{call .name /}` -/
     | callSelf (name : Bytes)
+    /-- `{call .name data="all" /}` -/
+    | callAll (name : Bytes)
   /-- a block: commands, each preceded by a (possibly empty) text run, and a trailing text run -/
   inductive Blk where
     | done (t : Bytes)
@@ -1198,6 +1352,8 @@ def caseTag (v : SExp) : Tag := .open [.word kCase, .sp, v.elem] false
 def defaultTag : Tag := .open [.word kDefault] false
 def callTag (name : Bytes) : Tag := .open [.word kCall, .sp, .dotIdent name] false
 def callSelfTag (name : Bytes) : Tag := .open [.word kCall, .sp, .dotIdent name, .sp] true
+def callAllTag (name : Bytes) : Tag :=
+  .open [.word kCall, .sp, .dotIdent name, .sp, .word kData, .eq, .str kAll, .sp] true
 def paramTag (k : Bytes) (e : SExp) : Tag := .open [.word kParam, .sp, .word k, .colon, .sp, e.elem, .sp] true
 
 /-- the segments of the params of a call: no text between them -/
@@ -1239,6 +1395,7 @@ mutual
     | .switch e cs => (t, switchTag e) :: ([], cs.head) :: segsCases cs
     | .call name ps => (t, callTag name) :: (segsParams ps ++ [([], .close kCall)])
     | .callSelf name => [(t, callSelfTag name)]
+    | .callAll name => [(t, callAllTag name)]
   /-- the segments of a block without its trailing text -/
   def initBlk : Blk → List Seg
     | .done _ => []
@@ -1275,6 +1432,7 @@ mutual
     | .switch e cs => e.ok ∧ wfCases cs
     | .call name ps => idOK name ∧ paramsOK ps
     | .callSelf name => idOK name
+    | .callAll name => idOK name
   /-- well-formed: every text run is empty or `textOK`, identifiers and literals are well-formed -/
   def wfBlk : Blk → Prop
     | .done t => txtOK t
@@ -1292,8 +1450,11 @@ end
 
 /-! ### the tags of the family are well-formed -/
 
-theorem SExp.elem_ok {e : SExp} (h : e.ok) : e.elem.ok ∧ e.elem.needsDelim = true := by
-  cases e <;> exact ⟨h, rfl⟩
+theorem SExp.elem_ok {e : SExp} (h : e.ok) : e.elem.ok := by
+  cases e <;> exact h
+
+theorem SExp.elem_next {e : SExp} {d : UInt8} (h : delimByte d.toNat) : e.elem.nextOK d := by
+  cases e <;> exact h
 
 theorem d32 : delimByte (32 : UInt8).toNat := by decide
 theorem d125 : delimByte (125 : UInt8).toNat := by decide
@@ -1301,13 +1462,13 @@ theorem d58 : delimByte (58 : UInt8).toNat := by decide
 theorem nd {P : Prop} : false = true → P := fun h => absurd h (by decide)
 
 theorem printTag_ok {id : Bytes} (h : idOK id) : (printTag id).ok :=
-  ⟨by simp, h, fun _ => d125, trivial⟩
+  ⟨by simp, h, d125, trivial⟩
 
 theorem ifTag_ok {e : SExp} (h : e.ok) : (ifTag e).ok :=
-  ⟨by simp, by decide, fun _ => d32, trivial, nd, (SExp.elem_ok h).1, fun _ => d125, trivial⟩
+  ⟨by simp, by decide, d32, trivial, trivial, (SExp.elem_ok h), SExp.elem_next d125, trivial⟩
 
 theorem elseifTag_ok {e : SExp} (h : e.ok) : (elseifTag e).ok :=
-  ⟨by simp, by decide, fun _ => d32, trivial, nd, (SExp.elem_ok h).1, fun _ => d125, trivial⟩
+  ⟨by simp, by decide, d32, trivial, trivial, (SExp.elem_ok h), SExp.elem_next d125, trivial⟩
 
 theorem elseTag_ok : elseTag.ok := by decide
 theorem ifemptyTag_ok : ifemptyTag.ok := by decide
@@ -1316,34 +1477,38 @@ theorem closeForeach_ok : (Tag.close kForeach).ok := by decide
 theorem closeLet_ok : (Tag.close kLet).ok := by decide
 
 theorem foreachTag_ok {x : Bytes} {e : SExp} (hx : idOK x) (h : e.ok) : (foreachTag x e).ok :=
-  ⟨by simp, by decide, fun _ => d32, trivial, nd, hx, fun _ => d32, trivial,
-    nd, by decide, fun _ => d32, trivial, nd, (SExp.elem_ok h).1, fun _ => d125, trivial⟩
+  ⟨by simp, by decide, d32, trivial, trivial, hx, d32, trivial,
+    trivial, by decide, d32, trivial, trivial, (SExp.elem_ok h), SExp.elem_next d125, trivial⟩
 
 theorem letvTag_ok {x : Bytes} {e : SExp} (hx : idOK x) (h : e.ok) : (letvTag x e).ok :=
-  ⟨by simp, by decide, fun _ => d32, trivial, nd, hx, fun _ => d58, trivial,
-    nd, trivial, nd, (SExp.elem_ok h).1, fun _ => d32, trivial, nd, trivial⟩
+  ⟨by simp, by decide, d32, trivial, trivial, hx, d58, trivial,
+    trivial, trivial, trivial, (SExp.elem_ok h), SExp.elem_next d32, trivial, trivial, trivial⟩
 
 theorem letcTag_ok {x : Bytes} (hx : idOK x) : (letcTag x).ok :=
-  ⟨by simp, by decide, fun _ => d32, trivial, nd, hx, fun _ => d125, trivial⟩
+  ⟨by simp, by decide, d32, trivial, trivial, hx, d125, trivial⟩
 
 theorem switchTag_ok {e : SExp} (h : e.ok) : (switchTag e).ok :=
-  ⟨by simp, by decide, fun _ => d32, trivial, nd, (SExp.elem_ok h).1, fun _ => d125, trivial⟩
+  ⟨by simp, by decide, d32, trivial, trivial, (SExp.elem_ok h), SExp.elem_next d125, trivial⟩
 
 theorem caseTag_ok {e : SExp} (h : e.ok) : (caseTag e).ok :=
-  ⟨by simp, by decide, fun _ => d32, trivial, nd, (SExp.elem_ok h).1, fun _ => d125, trivial⟩
+  ⟨by simp, by decide, d32, trivial, trivial, (SExp.elem_ok h), SExp.elem_next d125, trivial⟩
 
 theorem defaultTag_ok : defaultTag.ok := by decide
 theorem closeSwitch_ok : (Tag.close kSwitch).ok := by decide
 
 theorem callTag_ok {name : Bytes} (h : idOK name) : (callTag name).ok :=
-  ⟨by simp, by decide, fun _ => d32, trivial, nd, h, fun _ => d125, trivial⟩
+  ⟨by simp, by decide, d32, trivial, trivial, h, d125, trivial⟩
 
 theorem callSelfTag_ok {name : Bytes} (h : idOK name) : (callSelfTag name).ok :=
-  ⟨by simp, by decide, fun _ => d32, trivial, nd, h, fun _ => d32, trivial, nd, trivial⟩
+  ⟨by simp, by decide, d32, trivial, trivial, h, d32, trivial, trivial, trivial⟩
+
+theorem callAllTag_ok {name : Bytes} (h : idOK name) : (callAllTag name).ok :=
+  ⟨by simp, by decide, d32, trivial, trivial, h, d32, trivial, trivial, by decide, by decide, trivial, by decide,
+    by decide, trivial, trivial, trivial, trivial⟩
 
 theorem paramTag_ok {k : Bytes} {e : SExp} (hk : wordOK k) (h : e.ok) : (paramTag k e).ok :=
-  ⟨by simp, by decide, fun _ => d32, trivial, nd, hk, fun _ => d58, trivial, nd, trivial, nd, (SExp.elem_ok h).1,
-    fun _ => d32, trivial, nd, trivial⟩
+  ⟨by simp, by decide, d32, trivial, trivial, hk, d58, trivial, trivial, trivial, trivial, (SExp.elem_ok h),
+    SExp.elem_next d32, trivial, trivial, trivial⟩
 
 theorem closeCall_ok : (Tag.close kCall).ok := by decide
 
@@ -1430,6 +1595,8 @@ mutual
           (by intro s hs; simp at hs; subst hs; exact ⟨Or.inl rfl, closeCall_ok⟩) s hs
     | t, .callSelf name, ht, h => by
       intro s hs; simp [segsCmd] at hs; subst hs; exact ⟨ht, callSelfTag_ok h⟩
+    | t, .callAll name, ht, h => by
+      intro s hs; simp [segsCmd] at hs; subst hs; exact ⟨ht, callAllTag_ok h⟩
   theorem initBlk_ok : ∀ (b : Blk), wfBlk b → ∀ s ∈ initBlk b, SegOK s
     | .done _, _ => by intro s hs; simp [initBlk] at hs
     | .cons t c r, h => by
@@ -1754,6 +1921,7 @@ mutual
     | .call name ps =>
       .call (q + t.length + 5) (46 :: name) false none (paramNodes (q + t.length + (callTag name).src.length) ps)
     | .callSelf name => .call (q + t.length + 5) (46 :: name) false none .nil
+    | .callAll name => .call (q + t.length + 5) (46 :: name) true none .nil
   /-- the nodes of a block that begins at `q` -/
   def nodesBlk (q : Nat) : Blk → NodeList
     | .done t => textNL t (q + t.length)
@@ -1826,6 +1994,8 @@ theorem stops_items {untl : List ItemType} {g : Tag} (h : Stops untl g) (qg : Na
       | dotIdent _ => exact h.elim
       | colon => exact h.elim
       | int _ => exact h.elim
+      | eq => exact h.elim
+      | str _ => exact h.elim
 
 theorem skipComments_id (fuel : Nat) (token : Item) (st : FState) (hc : token.typ ≠ .tComment) :
     skipComments (fuel + 1) token st = .ok (token, st) := by
@@ -2140,6 +2310,12 @@ theorem segsCmd_items (q : Nat) (t : Bytes) (c : Cmd) :
       simp only [segsCmd, itemsSegs, List.append_assoc]
     rw [e']
     exact ⟨_, _, rfl, Or.inr (Or.inr (Or.inr (Or.inr (Or.inr (by decide : wordType kCall = .tCall)))))⟩
+  | callAll name =>
+    have e' : itemsSegs q (segsCmd t (.callAll name)) = textItem t (q + t.length) ++
+        ((callAllTag name).items (q + t.length) ++ itemsSegs (q + t.length + (callAllTag name).src.length) []) := by
+      simp only [segsCmd, itemsSegs, List.append_assoc]
+    rw [e']
+    exact ⟨_, _, rfl, Or.inr (Or.inr (Or.inr (Or.inr (Or.inr (by decide : wordType kCall = .tCall)))))⟩
 
 theorem blk_cons (ef : Nat) (t : Bytes) (c : Cmd) (r : Blk) (hc : CmdSpec pf ef c) (hr : BlkSpec pf ef r) :
     BlkSpec pf ef (.cons t c r) := by
@@ -2201,6 +2377,10 @@ theorem items_dollar (q : Nat) (id : Bytes) : (Elem.dollar id).items q = [⟨.tD
 theorem items_colon (q : Nat) : Elem.colon.items q = [⟨.tColon, q + 1, [58]⟩] := rfl
 theorem items_dotIdent (q : Nat) (id : Bytes) : (Elem.dotIdent id).items q = [⟨.tDotIdent, q + 1 + id.length, 46 :: id⟩] := rfl
 theorem src_dotIdent (id : Bytes) : (Elem.dotIdent id).src = 46 :: id := rfl
+theorem items_eq (q : Nat) : Elem.eq.items q = [⟨.tEquals, q + 1, [61]⟩] := rfl
+theorem items_str (q : Nat) (b : Bytes) : (Elem.str b).items q = [⟨.tString, q + 2 + b.length, 34 :: (b ++ [34])⟩] := rfl
+theorem src_eq : Elem.eq.src = [61] := rfl
+theorem src_str (b : Bytes) : (Elem.str b).src = 34 :: (b ++ [34]) := rfl
 theorem src_sp : Elem.sp.src = [32] := rfl
 theorem src_word (w : Bytes) : (Elem.word w).src = w := rfl
 theorem src_dollar (id : Bytes) : (Elem.dollar id).src = 36 :: id := rfl
@@ -2216,7 +2396,7 @@ theorem len_kwIn : kwIn.length = 2 := rfl
 /-- unfold the items / the source of a concrete tag -/
 macro "tag_unfold" : tactic => `(tactic|
   simp only [Tag.items, itemsEs, items_sp, items_word, items_dollar, items_colon, items_dotIdent, elem_items, srcEs, src_sp,
-    src_word, src_dollar, src_colon, src_dotIdent, Tag.src, closeBytes, List.length_cons, List.length_nil, List.length_append, List.cons_append,
+    src_word, src_dollar, src_colon, src_dotIdent, items_eq, items_str, src_eq, src_str, Tag.src, closeBytes, List.length_cons, List.length_nil, List.length_append, List.cons_append,
     List.nil_append, List.append_nil, Bool.false_eq_true, if_false, if_true, len_kIf, len_kElseif, len_kElse, len_kForeach,
     len_kIfempty, len_kLet, len_kwIn])
 
@@ -2358,6 +2538,20 @@ theorem callSelfTag_items (name : Bytes) (Q : Nat) :
   unfold callSelfTag
   tag_unfold
   simp only [len_kCall]
+  arith_items
+
+theorem len_kData : kData.length = 4 := rfl
+theorem len_kAll : kAll.length = 3 := rfl
+
+theorem callAllTag_items (name : Bytes) (Q : Nat) :
+    (callAllTag name).items Q = [⟨.tLeftDelim, Q + 1, [123]⟩, ⟨.tCall, Q + 5, kCall⟩,
+      ⟨.tDotIdent, Q + 7 + name.length, 46 :: name⟩, ⟨.tIdent, Q + 12 + name.length, kData⟩,
+      ⟨.tEquals, Q + 13 + name.length, [61]⟩, ⟨.tString, Q + 18 + name.length, 34 :: (kAll ++ [34])⟩,
+      ⟨.tRightDelimEnd, Q + 21 + name.length, [47, 125]⟩] ∧
+    (callAllTag name).src.length = 21 + name.length := by
+  unfold callAllTag
+  tag_unfold
+  simp only [len_kCall, len_kData, len_kAll]
   arith_items
 
 theorem paramTag_items (k : Bytes) (e : SExp) (P : Nat) :
@@ -3104,8 +3298,8 @@ theorem cmd_switch (ef : Nat) (e : SExp) (cs : Cases) (he : e.ok) (hcs : CasesSp
 
 /-- `parseAttrs` before `}` / `/}`: no attributes -/
 theorem parseAttrs_term (allowed : List Bytes) (f : Nat) (rd : Item) (s : List Item) (st : FState) (hpc : st.p.peekCount ≤ 2)
-    (hs : stream st.p = rd :: s) (hrd : isTerm rd.typ) :
-    ∃ st', parseAttrs allowed (f + 1) [] st = .ok ([], st') ∧ stream st'.p = rd :: s ∧ st'.p.peekCount ≤ 2 ∧
+    (hs : stream st.p = rd :: s) (hrd : isTerm rd.typ) (result : List (Bytes × Bytes) := []) :
+    ∃ st', parseAttrs allowed (f + 1) result st = .ok (result, st') ∧ stream st'.p = rd :: s ∧ st'.p.peekCount ≤ 2 ∧
       (st.p.peekCount ≤ 1 → st'.p.peekCount ≤ 1) ∧ Fr st st' := by
   obtain ⟨st1, hn1, hs1, ht1, hp1, hfr1⟩ := fnext_stream' hpc hs
   obtain ⟨st2, hb2, hs2, hp2, hfr2⟩ := fbackup_stream' (st := st1) (by omega)
@@ -3170,6 +3364,78 @@ theorem cmd_callSelf (ef : Nat) (name : Bytes) : CmdSpec pf ef (.callSelf name) 
   have hpc' : parseCall pf (ef + 4) (f + 2) ⟨.tCall, q + t.length + 5, kCall⟩ st1 =
       .ok (nodeCmd q t (.callSelf name), st3) := by
     show parseCall pf (ef + 4) ((f + 1) + 1) _ st1 = _
+    unfold parseCall
+    rw [fbind_run, hh2]
+    simp only
+    rw [fbind_run, hn3]
+    simp only [beq_self_eq_true, if_true]
+    rfl
+  rw [hpc']
+  rfl
+
+
+/-- the head of `{call .name data="all" …}` -/
+theorem parseCallHead_all (f : Nat) (name : Bytes) (p1 p2 p3 p4 : Nat) (nxt : Item) (s : List Item) (st : FState)
+    (hcl : Clean st) (hpc : st.p.peekCount ≤ 2)
+    (hs : stream st.p = ⟨.tDotIdent, p1, 46 :: name⟩ :: ⟨.tIdent, p2, kData⟩ :: ⟨.tEquals, p3, [61]⟩ ::
+      ⟨.tString, p4, 34 :: (kAll ++ [34])⟩ :: nxt :: s)
+    (hn : isTerm nxt.typ) :
+    ∃ st', parseCallHead pf (f + 2) st = .ok ((46 :: name, true, none), st') ∧ stream st'.p = nxt :: s ∧
+      st'.p.peekCount ≤ 1 ∧ Fr st st' := by
+  obtain ⟨st1, hn1, hs1, ht1, hp1, hfr1⟩ := fnext_stream' hpc hs
+  obtain ⟨st2, hn2, hs2, ht2, hp2, hfr2⟩ := fnext_stream' (st := st1) (by omega) hs1
+  obtain ⟨st3, he3, hs3, ht3, hp3, hfr3⟩ := fexpect_stream' (st := st2) (t := .tEquals) (by omega) hs2 rfl
+  obtain ⟨st4, he4, hs4, ht4, hp4, hfr4⟩ := fexpect_stream' (st := st3) (t := .tString) (by omega) hs3 rfl
+  obtain ⟨st5, ha5, hs5, _, hp5, hfr5⟩ := parseAttrs_term [kName, kData] f nxt s st4 (by omega) hs4 hn [(kData, kAll)]
+  have hfr05 := (((hfr1.trans hfr2).trans hfr3).trans hfr4).trans hfr5
+  refine ⟨st5, ?_, hs5, hp5 (by omega), hfr05⟩
+  have hattrs : parseAttrs [kName, kData] (f + 2) [] st1 = .ok ([(kData, kAll)], st5) := by
+    show parseAttrs [kName, kData] ((f + 1) + 1) [] st1 = _
+    rw [parseAttrs]
+    rw [fbind_run, hn2]
+    simp only [beq_self_eq_true, if_true, show (![kName, kData].contains kData) = false by decide, Bool.false_eq_true,
+      if_false]
+    rw [fbind_run, he3]
+    simp only
+    rw [fbind_run, he4]
+    have hgu : goUnquote (34 :: (kAll ++ [34])) = some kAll := by decide
+    simp only [hgu, List.filter_nil]
+    exact ha5
+  unfold parseCallHead
+  rw [fbind_run, hn1]
+  simp only [beq_self_eq_true, if_true]
+  rw [fbind_run, fpure_run]
+  simp only
+  rw [fbind_run, hattrs]
+  have hne : ((46 :: name : Bytes) == []) = false := by simp
+  simp only [hne, Bool.false_eq_true, if_false]
+  rw [fbind_run, get_run]
+  simp only [beq_self_eq_true, if_true]
+  have hns : st5.ns = [] := (Fr.clean hfr05 hcl).2
+  rw [fbind_run, fpure_run]
+  have hlk : lookup [(kData, kAll)] kData = some kAll := by decide
+  simp only [hns, List.nil_append, hlk, beq_self_eq_true, if_true]
+  rfl
+
+theorem cmd_callAll (ef : Nat) (name : Bytes) : CmdSpec pf ef (.callAll name) := by
+  intro q t fuel st rest hin hpc hs hf
+  have hit : itemsSegs q (segsCmd t (.callAll name)) = textItem t (q + t.length) ++ (callAllTag name).items (q + t.length) := by
+    simp only [segsCmd, itemsSegs, List.append_nil]
+  rw [hit, (callAllTag_items name (q + t.length)).1] at hs hf
+  rw [drop_len_succ] at hs
+  obtain ⟨f, rfl⟩ : ∃ f, fuel = f + 4 := ⟨fuel - 4, by omega⟩
+  obtain ⟨st1, hn1, hs1, ht1, hp1, hfr1⟩ := fnext_stream' hpc (by simpa using hs)
+  obtain ⟨st2, hh2, hs2, hp2, hfr2⟩ := parseCallHead_all pf f name _ _ _ _ _ _ st1 (Fr.clean hfr1 hin) (by omega) hs1 (Or.inr rfl)
+  obtain ⟨st3, hn3, hs3, ht3, hp3, hfr3⟩ := fnext_stream' (st := st2) (by omega) hs2
+  refine ⟨st3, ?_, hs3, by omega, (hfr1.trans hfr2).trans hfr3⟩
+  show beginTag pf (ef + 4) ((f + 3) + 1) st = _
+  unfold beginTag
+  rw [fbind_run, hn1]
+  simp only
+  rw [fbind_run]
+  have hpc' : parseCall pf (ef + 4) (f + 3) ⟨.tCall, q + t.length + 5, kCall⟩ st1 =
+      .ok (nodeCmd q t (.callAll name), st3) := by
+    show parseCall pf (ef + 4) ((f + 2) + 1) _ st1 = _
     unfold parseCall
     rw [fbind_run, hh2]
     simp only
@@ -3335,6 +3601,7 @@ mutual
     | .switch e cs, h => cmd_switch pf ef e cs h.1 (spec_cases ef cs h.2)
     | .call name ps, h => cmd_call pf ef name ps h.2
     | .callSelf name, _ => cmd_callSelf pf ef name
+    | .callAll name, _ => cmd_callAll pf ef name
   theorem spec_blk (ef : Nat) : ∀ (b : Blk), wfBlk b → BlkSpec pf ef b
     | .done t, _ => blk_done pf ef t
     | .cons t c r, h => blk_cons pf ef t c r (spec_cmd ef c h.2.1) (spec_blk ef r h.2.2)
@@ -3537,5 +3804,38 @@ theorem exCall_spec (pf : Bytes → Option UInt64) :
   simp [nodesOf, exCall, nodesBlk, nodeCmd, paramNodes, textNL, exprOf, natVal, lenS, srcSegs, segsCmd, segsParams,
     Tag.src, srcEs, Elem.src, SExp.elem, closeBytes, callTag, callSelfTag, paramTag, NodeList.append, NodeList.toList,
     kCall, kParam, d1, j1]
+
+
+/-- `a {call .tt data="all" /}{if $c}{call .u data="all" /}{/if}` -/
+def exCallAll : Blk :=
+  .cons [97, 32] (.callAll [116, 116])
+  (.cons [] (.ifc (.var [99]) (.cons [] (.callAll [117]) (.done [])) .fi) (.done []))
+
+theorem exCallAll_wf : wfBlk exCallAll := by
+  simp only [exCallAll, wfBlk, wfCmd, wfTail, SExp.ok]
+  decide
+
+theorem exCallAll_src : srcOf exCallAll =
+    [97, 32, 123, 99, 97, 108, 108, 32, 46, 116, 116, 32, 100, 97, 116, 97, 61, 34, 97, 108, 108, 34, 32, 47, 125, 123, 105,
+     102, 32, 36, 99, 125, 123, 99, 97, 108, 108, 32, 46, 117, 32, 100, 97, 116, 97, 61, 34, 97, 108, 108, 34, 32, 47, 125,
+     123, 47, 105, 102, 125] := by rfl
+
+/-- accepted, with exactly this tree (as the real parser: `build/vh worker`, op `parsesrc`) -/
+theorem exCallAll_spec (pf : Bytes → Option UInt64) :
+    parseSource pf
+      [97, 32, 123, 99, 97, 108, 108, 32, 46, 116, 116, 32, 100, 97, 116, 97, 61, 34, 97, 108, 108, 34, 32, 47, 125, 123, 105,
+       102, 32, 36, 99, 125, 123, 99, 97, 108, 108, 32, 46, 117, 32, 100, 97, 116, 97, 61, 34, 97, 108, 108, 34, 32, 47, 125,
+       123, 47, 105, 102, 125] =
+    .ok [.rawText 2 [97, 32], .call 7 [46, 116, 116] true none .nil,
+      .ifc 28 (.cons (.ifCond 28 (some (.dataRef 31 [99] .nil)) (.list 33 (.cons (.call 37 [46, 117] true none .nil) .nil))) .nil)] := by
+  have h := (block_source_spec pf exCallAll exCallAll_wf).2
+  rw [exCallAll_src] at h
+  rw [h]
+  have d1 : dropped [97, 32] = false := by
+    simp [dropped, allSpaceWithNewline, allSpaceLoop, decodeRune, byteAt, Lex.isSpaceEOL, Lex.isSpace, Lex.isEndOfLine]
+  have j1 : joinLines [97, 32] false false = [97, 32] := by rfl
+  simp [nodesOf, exCallAll, nodesBlk, nodeCmd, condsTail, textNL, exprOf, headPos, itemsSegs, closeBlk, initBlk, lenS, lenBlk,
+    srcSegs, segsCmd, segsTail, Blk.trail, IfTail.head, textItem, Tag.src, srcEs, Elem.src, SExp.elem, closeBytes, callAllTag,
+    ifTag, Tag.items, itemsEs, Elem.items, NodeList.append, NodeList.toList, kCall, kIf, kData, kAll, d1, j1]
 
 end SoyVerif.Props.C05c
